@@ -18,6 +18,25 @@ var c07KnownWitnesses = []c07Case{
 }
 
 func c07Known(c *Ctx, l *TLake) {
+	{
+		// null and missing keys tie in the declared order and interleave; floor() maps them to
+		// two different error values; three batches of input
+		var vals []string
+		for i := 0; i < 240; i++ {
+			if i%2 == 0 {
+				vals = append(vals, fmt.Sprintf("{k:null,i:%d}", i))
+			} else {
+				vals = append(vals, fmt.Sprintf("{i:%d}", i))
+			}
+		}
+		cs := c07Case{Check: "behav", Prog: OptProg{Stages: []string{"count() by k:=floor(k)"}}, Input: vals, SortKey: "k:asc"}
+		before := len(c.Res.Failures)
+		cs.check(c, l)
+		if len(c.Res.Failures) == before {
+			c.Stat("known:no-longer-fails")
+			c.Note("recorded witness no longer fails: `count() by k:=floor(k)` over interleaved null/missing keys")
+		}
+	}
 	if c.Thorough() {
 		// costs the long timeout: a fork whose legs a join pulls unevenly deadlocks beyond one batch
 		var vals []string
